@@ -795,6 +795,10 @@ func c17StepStream(r *h.Result, rng *h.Rng, n int) error {
 // c17StepCompare: series answers are compared as they are, text answers ("text:"/"text2:" prefix on the implementation
 // side) after collapsing blanks on the model side
 func c17StepCompare(r *h.Result, ops, impl []string, cases []any) error {
+	return c17StepCompareAs(r, "step", ops, impl, cases)
+}
+
+func c17StepCompareAs(r *h.Result, stream string, ops, impl []string, cases []any) error {
 	model, err := h.Model(ops)
 	if err != nil {
 		return err
@@ -823,7 +827,7 @@ func c17StepCompare(r *h.Result, ops, impl []string, cases []any) error {
 			m = strings.Join(f, " ")
 		}
 		if m != im {
-			r.Disagree("step", ops[i], im, m, cases[i])
+			r.Disagree(stream, ops[i], im, m, cases[i])
 		}
 	}
 	return nil
